@@ -9,3 +9,8 @@ pub mod woff2;
 pub mod glyfgen;
 pub mod ttgen;
 pub mod gvar;
+pub mod otl_gpos;
+pub mod cmap;
+pub mod glyf;
+pub mod type2;
+pub mod cff;
